@@ -20,9 +20,11 @@ def install_psutil(state):
         @property
         def available(self):
             state['asked'] += 1
-            return (1 << 62) if state['mem'] else 0
+            # "memory permits": 13 of 16 GiB are available; "threshold crossed": 7.5 GiB, which is below every form of
+            # the 8 GiB threshold used here ('8 GB', 8 * 2**30, '50%' of the total, the default)
+            return (13 << 30) if state['mem'] else (15 << 29)
 
-        total = 1 << 40
+        total = 16 << 30
     psutil.virtual_memory = lambda: VM()
 
 
@@ -55,7 +57,9 @@ def run_history(n, ops, keyed=False):
     with warnings.catch_warnings():
         warnings.simplefilter('ignore')
         src = {f'k{j}': j for j in range(n)} if keyed else list(range(n))
-        insts = [lazy_dataset.new(src).map(up).cache()]
+        # the threshold in each of its spellings (all 8 GiB here)
+        keep = [None, None, '8 GB', 8 << 30, '50%', '50 %'][(n + len(ops)) % 6]
+        insts = [lazy_dataset.new(src).map(up).cache() if keep is None else lazy_dataset.new(src).map(up).cache(keep_mem_free=keep)]
         outs = []
         its = {}
         for op in ops:
